@@ -1,4 +1,14 @@
 CHECKS = {
+ "C10": {
+  "text": "Systems built by construction A = U diag(s) V^T (sizes 1..40, rectangular, rank-deficient, cond to 1e8, batches) so the exact "
+          "minimum-norm least-squares solution is known: PINV vs it, LSTSQ via the normal equations, Cholesky on SPD and the fail-loudly "
+          "clause on indefinite / singular / mixed batches, CG (layouts dense/CSR/COO/BSR, x0, preconditioner, tolerances, b=0); block-"
+          "sparse products on generated patterns for all layout pairs with exact integer oracles plus an EXHAUSTIVE enumeration of small "
+          "sparsity patterns (10341 cases). Exploration, complete only for the enumerated patterns.",
+  "design_ref": "DESIGN.md section 3, C10",
+  "note": "Reference: numpy constructions (self-tested against numpy.linalg); LSTSQ's gels driver is only given full-rank input as documented.",
+  "technique": "property-based testing: Hypothesis generators with constructed ground truth, differential oracles and exhaustive pattern enumeration",
+ },
  "C15": {
   "text": "Generated LTI / LTV systems with independently batched matrices against numpy einsum; op-list histories on one system object "
           "(forward, reset, systime assignment, set_refpoint with every None-combination, reads of A..c2) against a reference integer "
